@@ -395,7 +395,9 @@ func (w *c24World) process(full bool) {
 		}
 		// a dispatch that happened before the last Schedule call returned may still belong to the
 		// incarnation that call replaced (the loop goroutine runs concurrently with the caller)
-		if t.prev != nil && dstamp < t.incStamp && t.prev.scheduled && e.sf.Equal(t.prev.next) {
+		// (only if that run was due under the replaced incarnation: the new one may name the same
+		// scheduled time with an earlier due time, e.g. the same @every spec with a negative offset)
+		if t.prev != nil && dstamp < t.incStamp && t.prev.scheduled && e.sf.Equal(t.prev.next) && !t.prev.next.Add(t.prev.spec.Offset).After(now) {
 			w.r.Event("run_attributed_to_replaced_incarnation", 1)
 			if n, err := t.prev.parsed.Next(t.prev.next); err == nil {
 				t.prev.next = n
